@@ -363,6 +363,147 @@ let run_frp_script oc (name, lines) =
       List.iter (fun l -> Printf.fprintf oc "%s\n" l) out;
       Printf.fprintf oc "---\n") !results
 
+(* guided run: every line carries the implementation's observation ("op || expected"); at each line all
+   allowed orders of the deferred transactions are explored from every state still compatible with the
+   observations so far, and those matching the observation survive. If none matches, the default order's
+   output is printed for that line and the run continues from it. *)
+let split_expected line =
+  let n = String.length line in
+  let rec find i = if i + 1 >= n then None else if line.[i] = '|' && line.[i + 1] = '|' then Some i else find (i + 1) in
+  match find 0 with
+  | Some i -> (String.trim (String.sub line 0 i), Some (String.trim (String.sub line (i + 2) (n - i - 2))))
+  | None -> (line, None)
+
+(* observations so far must be compatible with the expected line: per-listener sequences are prefixes,
+   samples/forced/posts/panics are among the expected items (multiset inclusion) *)
+let parse_expected (e : string) : (int * string list) list * string list =
+  if e = "-" then ([], []) else begin
+    let parts = List.map String.trim (Str.split (Str.regexp_string " ; ") e) in
+    let calls = ref [] and rest = ref [] in
+    List.iter (fun p ->
+        if String.length p > 1 && p.[0] = 'L' && String.contains p '=' then begin
+          let i = String.index p '=' in
+          let l = int_of_string (String.sub p 1 (i - 1)) in
+          let body = String.sub p (i + 2) (String.length p - i - 3) in
+          (* values may contain commas inside parentheses/brackets: split at depth 0 *)
+          let vs = ref [] and cur = Buffer.create 16 and depth = ref 0 in
+          String.iter (fun c ->
+              if c = '(' || c = '[' then incr depth;
+              if c = ')' || c = ']' then decr depth;
+              if c = ',' && !depth = 0 then begin vs := Buffer.contents cur :: !vs; Buffer.clear cur end
+              else Buffer.add_char cur c) body;
+          if Buffer.length cur > 0 || body <> "" then vs := Buffer.contents cur :: !vs;
+          calls := (l, List.rev !vs) :: !calls
+        end else rest := p :: !rest) parts;
+    (!calls, !rest)
+  end
+
+let rec is_prefix a b = match a, b with
+  | [], _ -> true
+  | x :: a', y :: b' -> x = y && is_prefix a' b'
+  | _ -> false
+
+let compatible (exp : ((int * string list) list * string list) option) (os : obs list) : bool =
+  match exp with
+  | None -> true
+  | Some (ecalls, erest) ->
+    let calls = Hashtbl.create 7 and ok = ref true and rest = ref erest in
+    List.iter (function
+        | BCall (l, v) ->
+          let l = int_of_nat l in
+          Hashtbl.replace calls l ((try Hashtbl.find calls l with Not_found -> []) @ [string_of_val v])
+        | o ->
+          let s = canon [o] in
+          if List.mem s !rest then begin
+            let rec rm = function [] -> [] | x :: t -> if x = s then t else x :: rm t in
+            rest := rm !rest end
+          else ok := false) os;
+    Hashtbl.iter (fun l vs ->
+        match List.assoc_opt l ecalls with
+        | Some evs -> if not (is_prefix vs evs) then ok := false
+        | None -> ok := false) calls;
+    !ok
+
+(* all outcomes of one script line from one state: the operations of the line, then every allowed order
+   of the deferred transactions (depth-first, pruned by the expected observation, memoised on states) *)
+let line_outcomes env (st0 : state) line (expected : string option) : (state * string * bool) list =
+  let ops = ops_of_line env line in
+  let wrap = int_of_nat st0.depth = 0 && List.length ops > 1 in
+  let ops = if wrap then (OBegin :: ops) @ [OEnd] else ops in
+  let exp = match expected with Some e -> (try Some (parse_expected e) with _ -> None) | None -> None in
+  let results = ref [] and budget = ref 20000 in
+  let seen = Hashtbl.create 97 in
+  let add r = if not (List.mem r !results) then results := !results @ [r] in
+  (* run the deferred queue *)
+  let rec drain (st : state) (q : ditem list) (acc : obs list) (k : state -> obs list -> unit) =
+    if !budget > 0 then begin
+      decr budget;
+      match q with
+      | [] -> k st acc
+      | _ ->
+        let key = Hashtbl.hash (st, q, List.length acc) in
+        let full = (st, q, acc) in
+        if not (List.mem full (Hashtbl.find_all seen key)) then begin
+          Hashtbl.add seen key full;
+          let n = List.length (heads [] q) in
+          for i = 0 to n - 1 do
+            match defer_one st q (nat_of_int i) with
+            | EV ((st1, q1), os) ->
+              let acc1 = acc @ os in
+              if compatible exp acc1 then drain st1 q1 acc1 k
+            | EErr e -> add (st, canon (acc @ [BPanic e]), true)
+          done
+        end
+    end in
+  let rec go (st : state) (acc : obs list) = function
+    | [] -> add (st, canon acc, false)
+    | o :: rest ->
+      (match step_q st o with
+       | EV ((st1, os), q) -> drain st1 q (acc @ os) (fun st2 acc2 -> go st2 acc2 rest)
+       | EErr e -> add (st, canon (acc @ [BPanic e]), true)) in
+  go st0 [] ops;
+  if !results = [] then begin
+    (* nothing compatible: report the default order *)
+    let rec dflt (st : state) (q : ditem list) (acc : obs list) fuel =
+      match q with
+      | [] -> (st, acc, false)
+      | _ -> if fuel = 0 then (st, acc, false) else
+          (match defer_one st q O with
+           | EV ((st1, q1), os) -> dflt st1 q1 (acc @ os) (fuel - 1)
+           | EErr e -> (st, acc @ [BPanic e], true)) in
+    let st = ref st0 and acc = ref [] and stop = ref false in
+    List.iter (fun o ->
+        if not !stop then
+          match step_q !st o with
+          | EV ((st1, os), q) ->
+            let (s2, a2, sp) = dflt st1 q (!acc @ os) 500 in st := s2; acc := a2; stop := sp
+          | EErr e -> acc := !acc @ [BPanic e]; stop := true) ops;
+    [(!st, canon !acc, !stop)]
+  end else !results
+
+let run_frp_guided oc (name, lines) =
+  Printf.fprintf oc "# %s\n" name;
+  let env = { alias = []; csinks = [] } in
+  let cands = ref [init_state] and stopped = ref false in
+  List.iter (fun raw ->
+      if not !stopped then begin
+        let (line, expected) = split_expected raw in
+        let saved = (env.alias, env.csinks) in
+        let env_of () = env.alias <- fst saved; env.csinks <- snd saved; env in
+        let all = List.concat (List.map (fun st -> line_outcomes (env_of ()) st line expected) !cands) in
+        let matching = match expected with
+          | Some e -> List.filter (fun (_, out, _) -> out = e) all
+          | None -> [] in
+        let chosen = if matching <> [] then matching else [List.hd all] in
+        let (_, out, stop) = List.hd chosen in
+        Printf.fprintf oc "%s\n" out;
+        if stop then stopped := true;
+        let sts = List.fold_left (fun acc (s, _, _) -> if List.mem s acc then acc else acc @ [s]) [] chosen in
+        let rec take n l = if n = 0 then [] else match l with [] -> [] | x :: t -> x :: take (n - 1) t in
+        cands := take 16 sts
+      end) lines;
+  Printf.fprintf oc "---\n"
+
 (* seeded random valid gc scripts (all choices from one PRNG state) *)
 let gc_rand seed count maxlen nmax emax hmax =
   Random.init seed;
@@ -448,6 +589,8 @@ let () =
     List.iter (run_eng_script false stdout) (read_scripts stdin)
   | _ :: "eng-run-orig" :: _ ->
     List.iter (run_eng_script true stdout) (read_scripts stdin)
+  | _ :: "frp-check" :: _ ->
+    List.iter (run_frp_guided stdout) (read_scripts stdin)
   | _ :: "frp-run" :: _ ->
     List.iter (run_frp_script stdout) (read_scripts stdin)
   | _ :: "gc-run" :: _ ->
